@@ -37,7 +37,8 @@ type Case struct {
 	Stream    []byte          `json:"stream,omitempty"` // variant reloaded-cut: the (truncated) stream itself, loaded as is
 	Other     *World          `json:"other"`
 	pre       func()          // scheduler gate: called at every observable point of a call (concurrent replay)            // facts an earlier instance of the same library is run on (variant second)
-	Removed   []string        `json:"removed"`   // rules removed from the library before instantiation
+	Removed   []string        `json:"removed"` // rules removed from the library before instantiation
+	shared    *sharedEngine   // (concurrent runs only) the engine value all goroutines share
 	JSONRules string          `json:"jsonRules"` // the same rules as a JSON rule set (variant json)
 	Parts     []string        `json:"parts"`     // the same rules split over several resources (variant multi)
 	Variant   string          `json:"variant"`   // fresh | reloaded | reloaded2 | second | multi
@@ -200,6 +201,52 @@ func cmdXprocStore() {
 	var buf bytes.Buffer
 	must(lib.StoreKnowledgeBaseToWriter(&buf, "kb", "1"))
 	os.Stdout.Write(buf.Bytes())
+}
+
+// sharedEngine: one engine value used by several goroutines at once; its single listener hands every callback to the tracer
+// of the run the callback's context belongs to.
+type sharedKey struct{}
+
+type sharedEngine struct {
+	eng  *engine.GruleEngine
+	mu   sync.RWMutex
+	next int
+	m    map[int]*tracer
+}
+
+func newSharedEngine(max uint64) *sharedEngine {
+	s := &sharedEngine{m: map[int]*tracer{}}
+	s.eng = &engine.GruleEngine{MaxCycle: max, Listeners: []engine.GruleEngineListener{s}}
+	return s
+}
+func (s *sharedEngine) register(t *tracer) int {
+	s.mu.Lock()
+	defer s.mu.Unlock()
+	s.next++
+	s.m[s.next] = t
+	return s.next
+}
+func (s *sharedEngine) unregister(k int) { s.mu.Lock(); delete(s.m, k); s.mu.Unlock() }
+func (s *sharedEngine) of(ctx context.Context) *tracer {
+	k, _ := ctx.Value(sharedKey{}).(int)
+	s.mu.RLock()
+	defer s.mu.RUnlock()
+	return s.m[k]
+}
+func (s *sharedEngine) BeginCycle(ctx context.Context, c uint64) {
+	if t := s.of(ctx); t != nil {
+		t.BeginCycle(ctx, c)
+	}
+}
+func (s *sharedEngine) EvaluateRuleEntry(ctx context.Context, c uint64, e *ast.RuleEntry, can bool) {
+	if t := s.of(ctx); t != nil {
+		t.EvaluateRuleEntry(ctx, c, e, can)
+	}
+}
+func (s *sharedEngine) ExecuteRuleEntry(ctx context.Context, c uint64, e *ast.RuleEntry) {
+	if t := s.of(ctx); t != nil {
+		t.ExecuteRuleEntry(ctx, c, e)
+	}
 }
 
 // lookCtx counts how often the engine consults the context: a cancellation can be placed before any given look.
@@ -573,8 +620,17 @@ func runCall(c *Case, ci int, kb *ast.KnowledgeBase, em *Emitter, watchdog time.
 	}
 	eng = &engine.GruleEngine{MaxCycle: cc.Max, ReturnErrOnFailedRuleEvaluation: cc.Flag}
 	shadows := make([][]string, c.Listener)
-	for i := 0; i < c.Listener; i++ {
-		eng.Listeners = append(eng.Listeners, &tracer{em: em, world: w, gate: gate, shadow: &shadows[i], primary: i == 0, nesting: &nesting, maxc: cc.Max, over: &over})
+	if c.shared != nil {
+		// ONE engine value serves every goroutine of a concurrent run (its listener routes the callbacks by a value in the context)
+		eng = c.shared.eng
+		shadows = make([][]string, 1)
+		key := c.shared.register(&tracer{em: em, world: w, gate: gate, shadow: &shadows[0], primary: true, nesting: &nesting, maxc: cc.Max, over: &over})
+		defer c.shared.unregister(key)
+		ctx = context.WithValue(ctx, sharedKey{}, key)
+	} else {
+		for i := 0; i < c.Listener; i++ {
+			eng.Listeners = append(eng.Listeners, &tracer{em: em, world: w, gate: gate, shadow: &shadows[i], primary: i == 0, nesting: &nesting, maxc: cc.Max, over: &over})
+		}
 	}
 	type result struct {
 		err     error
@@ -600,7 +656,7 @@ func runCall(c *Case, ci int, kb *ast.KnowledgeBase, em *Emitter, watchdog time.
 				r.sal = append(r.sal, re.Salience)
 				r.anyDel = r.anyDel || re.Deleted
 			}
-		} else if cc.UseCtx || cc.CancelAt >= 0 || cc.Deadline || cc.LookAt > 0 || cc.FarDeadline || cc.LateTimer {
+		} else if c.shared != nil || cc.UseCtx || cc.CancelAt >= 0 || cc.Deadline || cc.LookAt > 0 || cc.FarDeadline || cc.LateTimer {
 			r.err = eng.ExecuteWithContext(ctx, dc, kb)
 		} else {
 			r.err = eng.Execute(dc, kb)
